@@ -308,3 +308,41 @@ def hostile_texts():
     """Texts independent of any pattern: empty, NUL-containing, very long digit runs, lone signs, non-ASCII digits."""
     return ("", "\0", "\0\0", "0\0", "\x000", " ", "-", "+", "--", "+-", "9" * 40, "-" + "9" * 40, "٣", "²",
             "١٢:٣٠", "1e5", "0x10", "١٢", "Z", "z", "T", "‏", "\U0001d7d8", "a" * 300)
+
+
+# --- ill-formed composites (C08): embedded pattern + an individual field of the same kind, repeated fields ---------
+
+def illformed_composites(kind: str):
+    """Pattern texts that the documented rules reject (creation must raise InvalidPatternError - or, if a tree accepts
+    one, parsing must still never raise): an embedded ld<...> / lt<...> / l<...> combined with one individual field of
+    the same kind placed before and after it, a field both inside and outside the embedding, and every pair of width
+    variants of one field.  The two halves are always joined by a quoted '~', so texts can be re-spliced at '~'.
+    Yields (text, family)."""
+    def bare(p):
+        return p.text
+    if kind in ("datetime", "instant"):
+        dparts = [p.text for p in custom_patterns("date", 1)] + ["uuuu'-'MM'-'dd", "d/M/yyyy", "yyyy MM dd gg"]
+        tparts = [p.text for p in custom_patterns("time", 1)] + ["HH':'mm':'ss", "h:mm tt", "HH:mm:ss.FFF"]
+        dtokens = [tok for _, toks in FIELDS["date"] for tok in toks]
+        ttokens = [tok for _, toks in FIELDS["time"] for tok in toks]
+        for emb, parts, tokens in (("ld", dparts, dtokens), ("lt", tparts, ttokens)):
+            for part in parts:
+                for tok in tokens:
+                    yield "%s<%s>'~'%s" % (emb, part, tok), "embedded-then-field"
+                    yield "%s'~'%s<%s>" % (tok, emb, part), "field-then-embedded"
+        for part in ("uuuu'-'MM'-'dd'T'HH':'mm':'ss", "uuuu-MM-dd HH:mm", "%d"):
+            yield "l<%s>" % part, "l-embedding"
+            yield "l<%s>'~'HH" % part, "l-embedding"
+            yield "dd'~'l<%s>" % part, "l-embedding"
+        yield "ld<uuuu'-'MM'-'dd>'~'ld<uuuu'-'MM'-'dd>", "embedded-twice"
+        yield "lt<HH':'mm>'~'lt<HH':'mm>", "embedded-twice"
+        yield "ld<lt<HH>>'~'mm", "embedded-wrong-kind"
+        yield "lt<ld<dd>>'~'MM", "embedded-wrong-kind"
+    for name, toks in FIELDS[kind]:
+        for a in toks:
+            for b in toks:
+                ta, tb = a, b
+                yield "%s'~'%s" % (ta, tb), "repeated-field"
+    if kind == "duration":
+        for a, b in (("H", "h"), ("hh", "H"), ("M", "m"), ("mm", "MM"), ("S", "s"), ("ss", "S"), ("D", "H"), ("H", "M"), ("S", "D"), ("M", "S")):
+            yield "%s'~'%s" % (a, b), "repeated-field"
